@@ -91,6 +91,22 @@ pub fn seeded_inits() -> Vec<Init> {
         Init::Seeded(Box::new(Init::Schema(GSpec::Relu(0), 2)), quad.clone()),
         Init::Seeded(Box::new(Init::FromAff(Aff::new(vec![vec![1.0, 1.0], vec![1.0, -1.0]], vec![0.0, 0.5]))), quad),
         Init::Seeded(Box::new(Init::FromPoly(vec![(vec![1.0], 1.0), (vec![-1.0], 1.0)], r1(&[1.0], 0.0), Some(r1(&[0.0], 5.0)))), two),
+        // a root marked Feasible without any witness
+        Init::Seeded(Box::new(Init::Schema(GSpec::Relu(0), 1)), vec![]),
+        Init::Seeded(Box::new(Init::Schema(GSpec::HardTanh(0), 2)), vec![]),
+        // a stored point that misses a long row by 2^-20 (about 1e-6, far beyond the 1e-8 tolerance) although its
+        // distance to the hyperplane is only 2^-30: 1024 x <= -2^-20 with the witness 0, and the 2-D analogue
+        Init::Seeded(
+            Box::new(Init::Spec(TSpec::Dec(r1(&[1024.0], -(2f64.powi(-20))), vec![Some(TSpec::Leaf(r1(&[1.0], 0.0))), Some(TSpec::Leaf(r1(&[-1.0], 0.0)))]))),
+            vec![vec![0.0], vec![1.0]],
+        ),
+        Init::Seeded(
+            Box::new(Init::Spec(TSpec::Dec(
+                r1(&[512.0, 512.0], -(2f64.powi(-20))),
+                vec![Some(TSpec::Leaf(Aff::identity(2))), Some(TSpec::Dec(r1(&[-64.0, 0.0], 2f64.powi(-22)), vec![Some(TSpec::Leaf(Aff::identity(2))), Some(TSpec::Leaf(Aff::identity(2)))]))],
+            ))),
+            vec![vec![0.0, 0.0], vec![-1.0, 0.5]],
+        ),
     ]
 }
 
